@@ -15,6 +15,9 @@ MODULE = "MC_sched.tla"
 
 
 def job(j):
+    if j.get("r3"):
+        import schedtrace
+        return schedtrace.job(j)
     cfg = j["cfg"]
     serial = j.get("serial", False)
     st = {"world": None, "n": 0, "viol": [], "distinct": set(), "samples": [], "dev": 0, "multi": 0}
@@ -56,8 +59,13 @@ def main(argv, pid=PID, cfgs=None, serial=False):
                        "6 flag sets: parent concurrency all/none/mixed x list concurrency on/off; argument coercer gather/sync covered by C02"]
     cfgs = cfgs or (THOROUGH if common.tier() == "thorough" else QUICK)
     jobs = [{"cfg": c, "serial": serial} for c in cfgs]
+    thorough = common.tier() == "thorough"
     if pid == "C08":
         jobs.append({"cfg": "MC_sched_live.cfg", "r1only": True})
+    nr3 = (8 if thorough else 3) if pid == "C08" else (4 if thorough else 2)
+    for k in range(nr3):
+        jobs.append({"r3": True, "seed": common.seed() * 1000 + k + (1 if pid == "C08" else 501), "behaviours": 1200 if thorough else 400,
+                     "max_cases": 400 if thorough else 60, "schedules_per_case": 6 if thorough else 3, "mutations_only": pid == "C09"})
     results = genrun.run_jobs("checks.c08", "job", jobs)
     bad = genrun.merge(rep, results)
     rc = rep.finish()
